@@ -19,6 +19,7 @@ import (
 	"math/rand"
 	"net"
 	"os"
+	"runtime"
 	"sync"
 	"sync/atomic"
 	"time"
@@ -106,13 +107,18 @@ func (c *vTConn) expireReadDeadline() {
 }
 
 func (c *vTConn) Write(b []byte) (int, error) {
-	cp := make([]byte, len(b))
-	copy(cp, b)
+	if c.jitter {
+		runtime.Gosched() // a socket write is a system call: other goroutines run meanwhile
+	}
+	// the datagram is copied when the socket gets to it (inside the critical
+	// section): a caller's buffer that changes before that is sent as changed
 	c.mu.Lock()
 	defer c.mu.Unlock()
 	if c.closed {
 		return 0, net.ErrClosed
 	}
+	cp := make([]byte, len(b))
+	copy(cp, b)
 	c.writes = append(c.writes, cp)
 	return len(b), nil
 }
